@@ -384,6 +384,18 @@ func (fr *Frame) lookupDebug(name string, b *ssa.BasicBlock, idx int, st *State)
 				}
 			}
 		}
+		// phis sit at the block start and are visible from every point of the block
+		for _, in := range blk.Instrs {
+			phi, ok := in.(*ssa.Phi)
+			if !ok {
+				break
+			}
+			if phi.Comment == name {
+				if _, computed := fr.vals[phi]; computed {
+					return fr.val(phi), true
+				}
+			}
+		}
 	}
 	return Val{}, false
 }
